@@ -795,6 +795,7 @@ func init() {
 			items = append(items, callsItems(tier, "C07", "clean-despite-violation", "depends-on-history", "nested-call-differs", "earlier-result-changed", "callers-value-modified", "panic")...)
 			// "...on the global configuration at that moment": message tables edited in place between calls
 			items = append(items, Item{Name: "message-table-edited-between-calls", MaxDevs: -1, Run: c07TableEditScenario})
+			items = append(items, Item{Name: "fresh-issue-inside-a-formatter", MaxDevs: 2, Run: c07ExecIssueScenario})
 			return items
 		},
 		Extra: func(tier string) map[string]any {
